@@ -88,16 +88,15 @@ def transpiler_definitions(cache_dir: str | None, cache_enabled: bool = True, so
 	from rogw.tranp.providers.module import module_meta_factory
 	import hashlib
 
-	@injectable
-	def make_meta_factory(invoker: Invoker) -> ModuleMetaFactory:
-		org = None
+	from rogw.tranp.file.loader import ISourceLoader
+	from rogw.tranp.lang.module import module_path_to_filepath
 
+	@injectable
+	def make_meta_factory(sources_loader: ISourceLoader) -> ModuleMetaFactory:
 		def handler(module_path: str):
-			nonlocal org
 			if module_path in mem:
 				return {'hash': hashlib.md5(mem[module_path].encode('utf-8')).hexdigest(), 'path': module_path}
-			org = org or invoker(module_meta_factory)
-			return org(module_path)
+			return {'hash': sources_loader.hash(module_path_to_filepath(module_path, '.py')), 'path': module_path}
 
 		return handler
 
